@@ -48,7 +48,7 @@ pub fn build_case(seed: u64, case: u64) -> FaultCase {
     use ops::Kind::*;
     p.weights = [0; ops::Kind::_Count as usize];
     for (k, w) in [
-        (Put, 30), (Del, 8), (Batch, 5), (Rotate, 2), (Flush, 16), (FlushSealed, 2), (Leveled, 10), (Major, 7),
+        (Put, 30), (Del, 8), (Batch, 5), (Rotate, 7), (Flush, 16), (FlushSealed, 2), (Leveled, 10), (Major, 7),
         (MoveDown, 2), (PullDown, 2), (Reopen, 2), (Ingest, 5), (DropRange, 4), (Clear, 2), (SnapOpen, 3), (SnapRelease, 2),
     ] {
         p.weights[k as usize] = w;
